@@ -2590,6 +2590,7 @@ func (pc *PeerConnection) close(shouldGracefullyClose bool) error { //nolint:cyc
 	pc.mu.Unlock()
 
 	// https://www.w3.org/TR/webrtc/#dom-rtcpeerconnection-close (step #5)
+	verifYield("pc.close.step5", pc)
 	pc.sctpTransport.lock.Lock()
 	for _, d := range pc.sctpTransport.dataChannels {
 		d.setReadyState(DataChannelStateClosed)
